@@ -145,7 +145,7 @@ pub fn make_streams(ctx: &mut Ctx, n_each: usize) -> Vec<S13> {
     for k in 0..n_each {
         let zlib = k % 2 == 0;
         let big = k % 3 == 2;
-        let cfg = GenCfg { max_tokens: if big { 3000 } else { 40 }, max_blocks: 3, zlib, pre_len: 0, big };
+        let cfg = GenCfg { max_tokens: if big { 3000 } else { 40 }, max_blocks: 3, zlib, pre_len: 0, big, heavy: false };
         let g = sgen::gen_stream(&mut ctx.rng, &cfg);
         let enc = g.bytes.len();
         v.push(S13 { z: g.bytes.clone(), zlib, plain: g.plain.clone(), enc_len: enc, kind: "valid" });
